@@ -45,6 +45,11 @@ def TUP(*xs):
     return {'t': 'tuple', 'v': list(xs)}
 
 
+def ARR(dtype, *xs, nested=False):
+    """The values as a numpy array of the given dtype (nested: xs are L(...) rows)."""
+    return {'t': 'ndarray', 'dtype': dtype, 'v': list(xs), 'nested': nested}
+
+
 def EN(enum, member):
     return {'t': 'enum', 'enum': enum, 'member': member}
 
